@@ -312,16 +312,58 @@ type PKInitSANAnotherName struct {
 	Value KRB5PrincipalName `asn1:"explicit,tag:0"`
 }
 
+// derWalk follows path from the start of der: 'e' enters the DER element at the
+// current position (moves to its contents), 's' skips it (moves past its end).
+// It returns the position reached.
+func derWalk(der []byte, path string) (int, error) {
+	position := 0
+	for _, step := range path {
+		if position+2 > len(der) {
+			return 0, errors.New("truncated DER element")
+		}
+		length := int(der[position+1])
+		contents := position + 2
+		if length&0x80 != 0 {
+			numBytes := length & 0x7f
+			if numBytes < 1 || numBytes > 3 || contents+numBytes > len(der) {
+				return 0, errors.New("unsupported DER length")
+			}
+			length = 0
+			for _, b := range der[contents : contents+numBytes] {
+				length = length<<8 | int(b)
+			}
+			contents += numBytes
+		}
+		if contents+length > len(der) {
+			return 0, errors.New("truncated DER element")
+		}
+		if step == 'e' {
+			position = contents
+		} else {
+			position = contents + length
+		}
+	}
+	if position >= len(der) {
+		return 0, errors.New("truncated DER element")
+	}
+	return position, nil
+}
+
 // Since currently asn1 cannot mashal into GeneralString (https://github.com/golang/go/issues/18832)
-// We make this hack since we know the positions of the items we want to change
-func changePrintableStringToGeneralString(kerberosRealm string, inString []byte) []byte {
-	position := 16
-	inString[position] = 27
-
-	position = position + 1 + len(kerberosRealm) + 14
-	inString[position] = 27
-
-	return inString
+// We make this hack since we know the structure of the items we want to change:
+// SEQUENCE { OID, [0] { SEQUENCE { [0] { realm }, [1] { SEQUENCE { [0] { INTEGER },
+// [1] { SEQUENCE { name } } } } } } }
+// The two strings are located by walking the element headers, so that the
+// positions are right for any length of the realm and of the user name.
+func changePrintableStringToGeneralString(inString []byte) ([]byte, error) {
+	for _, path := range []string{"eseee", "eseeseesee"} {
+		position, err := derWalk(inString, path)
+		if err != nil {
+			return nil, err
+		}
+		inString[position] = 27
+	}
+	return inString, nil
 }
 
 func genSANExtension(userName string, kerberosRealm *string) (*pkix.Extension, error) {
@@ -343,7 +385,10 @@ func genSANExtension(userName string, kerberosRealm *string) (*pkix.Extension, e
 		return nil, err
 	}
 	//fmt.Printf("ext: %+x\n", krbSanAnotherNameDer)
-	krbSanAnotherNameDer = changePrintableStringToGeneralString(krbRealm, krbSanAnotherNameDer)
+	krbSanAnotherNameDer, err = changePrintableStringToGeneralString(krbSanAnotherNameDer)
+	if err != nil {
+		return nil, err
+	}
 	krbSanAnotherNameDer[0] = 0xA0
 	//fmt.Printf("ext: %+x\n", krbSanAnotherNameDer)
 
